@@ -1,6 +1,12 @@
 mod core;
 mod disk;
 mod e2_journal;
+mod asm;
+mod sys;
+mod monitor;
+mod model;
+mod world;
+mod e1_tx;
 mod checks;
 
 fn main() {
